@@ -173,6 +173,10 @@ let do_op sid (toks : string list) : string =
 
 let handle (toks : string list) : string =
   match toks with
+  | ["alive"; sid; id] ->
+    (match Hashtbl.find_opt astates (int_of_string sid) with
+     | Some a -> bstr (List.exists (fun (i, _) -> int_of_n i = int_of_string id) a.as_snaps)
+     | None -> "?")
   | ["aobs"; sid; addrs; slots; thashes; pres] ->
     aobserve (int_of_string sid) (ints addrs) (ints slots) (ints thashes) (ints pres)
   | ["manage"; sid; mid] ->
